@@ -17,8 +17,18 @@ import numpy as np
 import numba as nb
 
 
-@nb.njit(parallel=True, cache=True)
 def calculate_interferometer_on_fock_space(interferometer, helper_indices):
+    if len(helper_indices[0]) == 0:
+        # NOTE: This happens when the cutoff is at most 2, e.g., after measuring most of
+        # the particles. Numba cannot infer the type of the empty lists, but only the
+        # trivial and the one-particle subspace representations are needed here.
+        return [np.array([[1.0]], dtype=interferometer.dtype), interferometer]
+
+    return _calculate_interferometer_on_fock_space(interferometer, helper_indices)
+
+
+@nb.njit(parallel=True, cache=True)
+def _calculate_interferometer_on_fock_space(interferometer, helper_indices):
     cutoff = len(helper_indices[0]) + 2
     subspace_representations = []
 
